@@ -17,28 +17,47 @@ def US(ns, ns2):
         for i in range(n):
             L.append("%s.%d:%d" % (f, i, big + 2))
     return L
-def T(name, op, ns, tiers, timeout=900, mem=12, d=6, ns2=None, hbits=None, **kw):
+def T(name, op, ns, tiers, timeout=900, mem=8, d=6, ns2=None, hbits=None, **kw):
     ns2 = ns2 or ns
     return Ob("table.%s.ns%d" % (name, ns), "C02/table_step.c", defs=["NS=%d" % ns, "OP=%s" % op, "ELEM_D=%d" % d] + (["HBITS=%d" % hbits] if hbits else []),
               replace=["Table.c"], unwind=max(ns, ns2, d) + 2, unwindset=US(ns, ns2), checks=["bounds", "pointer", "div0"],
               tiers=tiers, timeout=timeout, mem_gb=mem, desc="Table %s step from an arbitrary valid %d-slot state" % (name, ns), **kw)
 Q = ("quick", "thorough")
-OBLIGATIONS = [
-    T("init", "OP_INIT", 1, Q),
-    T("set", "OP_SET", 5, Q),
-    T("setmove", "OP_SETMOVE", 5, ("probe",), timeout=600),
-    T("setmove", "OP_SETMOVE", 1, ("probe",), timeout=600),
-    T("get", "OP_GET", 5, ("probe",), timeout=240),
-    T("get.cadical", "OP_GET", 5, ("probe",), timeout=240, backend="cadical"),
-    T("get.h3", "OP_GET", 5, ("probe",), timeout=240, hbits=3),
-    T("get.h3.cadical", "OP_GET", 5, ("probe",), timeout=240, hbits=3, backend="cadical"),
-    T("get.h3.kissat", "OP_GET", 5, ("probe",), timeout=240, hbits=3, backend="kissat"),
-    T("get.h3.slice", "OP_GET", 5, ("probe",), timeout=240, hbits=3, extra=["--slice-formula"]),
-    T("get.h3.z3", "OP_GET", 5, ("probe",), timeout=240, hbits=3, backend="z3"),
-    T("iter", "OP_ITER", 5, ("probe",), timeout=600),
-    T("rem", "OP_REM", 5, ("probe",), timeout=600),
-    T("remabsent", "OP_REM_ABSENT", 5, ("probe",), timeout=600),
-    T("init", "OP_INIT", 1, ("probe",), timeout=600),
-]
-LEVEL_TEXT = "x"
-LEVEL_NOTE = "x"
+P = ("probe",)
+def T2(name, op, ns, tiers, extra_defs=(), **kw):
+    o = T(name, op, ns, tiers, **kw)
+    o.defs += list(extra_defs)
+    return o
+STUB = ["Table_Rehash:verif_rehash_stub"]
+def TH(name, op, ns, tiers, extra=(), **kw):
+    """one obligation per home slot of the key operated on"""
+    return [T2("%s.home%d" % (name, h), op, ns, tiers, ["HOME=%d" % h] + list(extra), **kw) for h in range(ns)]
+TH_ = ("thorough",)
+OBLIGATIONS = (
+    [T2("init", "OP_INIT", 1, Q, ["HBITS=3"], ns2=5, mem=6)]
+    + TH("set", "OP_SET", 5, Q, replace_calls=STUB, mem=6)
+    + TH("rem", "OP_REM", 5, Q, replace_calls=STUB, mem=6)
+    + TH("get", "OP_GET", 5, Q, mem=6)
+    + TH("remabsent", "OP_REM_ABSENT", 5, Q, replace_calls=STUB, mem=6)
+    + TH("getabsent", "OP_GET_ABSENT", 5, Q, mem=6)
+    + [T("iter", "OP_ITER", 5, Q, mem=6), T("del", "OP_DEL", 5, Q, mem=6), T("resize", "OP_RESIZE", 5, Q, replace_calls=STUB, mem=6),
+       T2("rehash.1to5", "OP_REHASH", 1, Q, ["NS2=5", "HBITS=3"], ns2=5, mem=6),
+       T2("rehash.5to1", "OP_REHASH", 5, Q, ["NS2=1", "HBITS=3"], mem=6),
+       T2("clearset", "OP_CLEAR_SET", 5, Q, ["HOME=0"], mem=6)]
+    # thorough: 11-slot tables (every home slot), growth/shrink rehashes between 5 and 11 slots with 6-bit hashes
+    # (all residue pairs modulo 5 and 11), and the 5-slot steps again with unrestricted 64-bit hash values
+    + TH("set", "OP_SET", 11, TH_, replace_calls=STUB, timeout=3600, mem=16, d=11)
+    + TH("rem", "OP_REM", 11, TH_, replace_calls=STUB, timeout=3600, mem=16, d=11)
+    + TH("get", "OP_GET", 11, TH_, timeout=3600, mem=16, d=11)
+    + [T("iter", "OP_ITER", 11, TH_, timeout=3600, mem=16, d=11),
+       T2("rehash.5to11", "OP_REHASH", 5, TH_, ["NS2=11", "HBITS=6"], ns2=11, timeout=7200, mem=24),
+       T2("rehash.11to5", "OP_REHASH", 11, TH_, ["NS2=5", "HBITS=6"], timeout=7200, mem=24, d=11)]
+    + [T2("set.h64.home%d" % h, "OP_SET", 5, TH_, ["HOME=%d" % h, "HFULL"], replace_calls=STUB, timeout=3600, mem=16) for h in range(5)]
+)
+LEVEL_TEXT = ("Bounded model checking of the real Table.c: every operation is executed symbolically from an ARBITRARY valid slot layout "
+              "(occupancy, keys, values, probe distances, wrap-around, uninterpreted hash function) -- one inductive step per operation and per home slot, "
+              "so operation histories of any length are covered for the slot counts explored (1 and 5 quick; 11 thorough), plus the constructor as base case "
+              "and Table_Rehash between consecutive sizes. Claims hold within the stated slot counts and key-domain sizes only.")
+LEVEL_NOTE = ("Trusted: cbmc; the probe element (eq/hash/assign/destruct replaced by harness callbacks with an ownership ledger; the dispatcher's routing to the real "
+              "Int/String instances is C08/C09/C10); Table_Rehash is stubbed inside set/rem/resize steps and discharged separately (assume-guarantee); "
+              "hash values restricted to slot residues (quick) -- 64-bit hashes in the thorough tier; allocation never fails.")
